@@ -1957,6 +1957,9 @@ class CouponPayingSecurity(FixedIncomeSecurity):
         else:
             self._holding_cost = 0.0
 
+        if np.isnan(self._holding_cost):
+            raise Exception("Position is open (non-zero) and latest holding cost is NaN for security %s on %s. Cannot update node value." % (self.name, date))
+
         self._capital = self._coupon - self._holding_cost
         self._coupon_income.array[inow] = self._coupon
         self._holding_costs.array[inow] = self._holding_cost
